@@ -1126,3 +1126,75 @@ func c02R18(c *Ctx, r *Report) {
 	}
 	r.Floor(rule, n, 5, "comparisons built with a constant operator")
 }
+
+// ---- C02.R19: float negation flips the sign -----------------------------------------------------------------------
+
+func init() {
+	lateInits = append(lateInits, func() {
+		props["C02"].Quick = append(props["C02"].Quick, c02R19)
+		props["C02"].Explanation += " (R19) the QBE emitter negates a float by a product with -1 in a branch of its own; `0 - x` (which is +0 for x == 0, where the wasm target's f64.neg gives -0) is emitted for integers only."
+	})
+}
+
+func c02R19(c *Ctx, r *Report) {
+	const rule = "C02.R19"
+	r.Describe(rule, "qbe.emitUnary, case MINUS_TOKEN: an `if g.isFloat(…)` branch emits a `mul` by a -1 constant; no `sub` template stands inside it")
+	fn := c.LookupFn(pkgQBE, "(*Generator).emitUnary")
+	if !r.Anchor(rule, fn != nil && fn.Decl.Body != nil, "qbe.(*Generator).emitUnary") {
+		return
+	}
+	info := fn.Info()
+	var clause *ast.CaseClause
+	ast.Inspect(fn.Decl.Body, func(x ast.Node) bool {
+		if cc, ok := x.(*ast.CaseClause); ok {
+			for _, e := range cc.List {
+				if o := constObj(info, e); o != nil && o.Name() == "MINUS_TOKEN" {
+					clause = cc
+				}
+			}
+		}
+		return true
+	})
+	if !r.Anchor(rule, clause != nil, "emitUnary: case tokens.MINUS_TOKEN") {
+		return
+	}
+	good := false
+	var chain []*ast.IfStmt
+	for _, st := range clause.Body {
+		ast.Inspect(st, func(y ast.Node) bool {
+			if ifs, ok := y.(*ast.IfStmt); ok {
+				chain = append(chain, ifs)
+			}
+			return true
+		})
+	}
+	for _, ifs := range chain {
+		cl, ok := ast.Unparen(ifs.Cond).(*ast.CallExpr)
+		if !ok {
+			continue
+		}
+		if f := callee(info, cl); f == nil || f.Name() != "isFloat" {
+			continue
+		}
+		hasMul, hasSub, hasMinusOne := false, false, false
+		ast.Inspect(ifs.Body, func(y ast.Node) bool {
+			if bl, ok := y.(*ast.BasicLit); ok && bl.Kind == token.STRING {
+				if strings.Contains(bl.Value, " mul ") {
+					hasMul = true
+				}
+				if strings.Contains(bl.Value, " sub ") {
+					hasSub = true
+				}
+				if strings.Contains(bl.Value, "_-1") {
+					hasMinusOne = true
+				}
+			}
+			return true
+		})
+		if hasMul && hasMinusOne && !hasSub {
+			good = true
+		}
+	}
+	r.Check(good, rule, fn.Name(), "a float is negated by a product with -1", c.pos(clause.Pos()),
+		"the negation of a float is emitted as `0 - x`: for x == 0.0 that is +0.0, so `1.0 / -z` prints inf natively and -inf on wasm (f64.neg)")
+}
